@@ -265,7 +265,10 @@ def run (t : Tbl) (cmd : String) (args : List String) : Tbl × String :=
         if o.poisoned then (t, "poisoned") else
         match e.sk, o.sk with
         | .plain s, .plain s2 => applyRes t h e (liftP (s.mergeWith s2))
-        | .exact x, .exact x2 => applyRes t h e (liftX (x.mergeWith x2))
+        | .exact x, .exact x2 =>
+          -- a sketch merged into itself: the statistics see their own updates (aliasing)
+          if parseNat h2 == some h then applyRes t h e (liftX x.mergeWithSelf)
+          else applyRes t h e (liftX (x.mergeWith x2))
         | _, _ => (t, "bad-op")
   | "copy", [h2, h] =>
     match parseNat h2 with
